@@ -223,7 +223,7 @@ fn corrupt(rng: &mut Rng, cfg: &Cfg, m: &mut Value) -> (String, String) {
             *target = json!(c);
         }
         "token_denom" | "liquid_stake_token_denom" => {
-            let c = rng.pick(&["", "abc", "ab1d", "ut ia", "utia/", "ütia", "st-TIA", "abcd"]).to_string();
+            let c = rng.pick(&["", "abc", "ab1d", "ut ia", "utia/", "ütia", "st-TIA", "abcd", " stTIA", "stTIA ", "stTIA\n", "\tstTIA", "  abcd  "]).to_string();
             fam = format!("subdenom:{c}");
             *target = json!(c);
         }
@@ -263,6 +263,12 @@ fn corrupt(rng: &mut Rng, cfg: &Cfg, m: &mut Value) -> (String, String) {
             };
             fam = format!("prefix:{}", if c.is_empty() { "empty" } else if c.len() > 83 { "long" } else if c == base.to_uppercase() { "upper" } else if c.ends_with(' ') { "space" } else if c.ends_with('x') { "other" } else { "mixed" });
             *target = json!(c);
+        }
+    }
+    // a validator prefix is judged even when there is no validator to judge it by
+    if key == "validator_address_prefix" && rng.chance(1, 2) {
+        if let Some(n) = m.get_mut("native_chain_config") {
+            n["validators"] = json!([]);
         }
     }
     (fam, format!("{sec}.{key}"))
